@@ -177,7 +177,10 @@ func (o *oracle) newCommitTs(txn *Txn) (uint64, bool) {
 		ts = txn.commitTs
 	}
 
-	y.AssertTrue(ts >= o.lastCleanupTs)
+	// In managed mode a transaction whose entries all carry their own versions (a managed
+	// WriteBatch using SetEntryAt/DeleteAt) has no commit timestamp of its own: ts is zero. It
+	// reads nothing and can conflict with nothing, so the cleanup watermark does not apply to it.
+	y.AssertTrue(ts == 0 || ts >= o.lastCleanupTs)
 
 	if o.detectConflicts {
 		// We should ensure that txns are not added to o.committedTxns slice when
